@@ -685,8 +685,18 @@ def panic_weak_items(prop, tier, seed):
     return items
 
 
+def _c05_weak_after_death(tier, seed):
+    out = []
+    for it in weak_after_death_items(tier, seed):
+        c = dict(it)
+        c.update(prop='C05', name='C05 ' + it['name'], oracles={'C05'}, relabel=False, opts={'panics_ok': True})
+        c['accept_props'] = ['C05']
+        out.append(c)
+    return out
+
+
 def items_C05(tier, seed, P):
-    return (weak_graph_items('C05', tier, seed, {'C05'}, opts={'panics_ok': True}) + consume_weak_items('C05', tier, seed)
+    return (_c05_weak_after_death(tier, seed) + weak_graph_items('C05', tier, seed, {'C05'}, opts={'panics_ok': True}) + consume_weak_items('C05', tier, seed)
             + panic_weak_items('C05', tier, seed) + weak_api_items('C05', tier, seed, {'C05'}) + lemma_items('C05', ['downgrade', 'weakdrop', 'upgrade']))
 
 
@@ -878,6 +888,9 @@ def c10_actions(n):
     A['unadopt'] = [{'op': 'take', 'via': 'hP', 'slot': 0, 'as': 'tq'}, {'op': 'unadopt', 'a': 'hP', 'b': 'tq'}, {'op': 'strong_count', 'h': 'tq'}]
     A['nested-collection'] = [{'op': 'drop', 'h': 'hP'}]
     A['counts'] = [{'op': 'strong_count', 'h': 'hB'}, {'op': 'weak_count', 'h': 'hB'}, {'op': 'deref', 'h': 'hB'}]
+    # lets go of the Weak to its dying peer that its value holds (possibly the last Weak to that peer), allocates, then looks at the bystander
+    A['drop-own-weak'] = [{'op': 'self_take_weak', 'slot': 0, 'as': 'ownw'}, {'op': 'wdrop', 'w': 'ownw'}, {'op': 'new', 'obj': n + 7, 'as': 'fresh'},
+                          {'op': 'strong_count', 'h': 'fresh'}, {'op': 'strong_count', 'h': 'hB'}]
     return A
 
 
